@@ -222,7 +222,11 @@ class Final:
             p, tag = self.parent(n)
             if p != want:
                 probs.append('parent(%s) is %s but it is the child of %s' % (n, p, want))
+        LINK_LOG.append((len(exp), list(probs)))
         return probs
+
+
+LINK_LOG = []   # (nodes examined, problems) per link_problems() call; read by C03 rule I0
 
 
 def height_cmp(a, b):
